@@ -185,10 +185,32 @@ func dataflowCase(c *Ctx, focus string) {
 		c.Res.Probes["many-chunks-cases"]++
 	}
 	cfg.Flags = append(baseFlags(c.Plan), "--vdrmode=disable", "--strict=error")
+	if c.Plan.Draw(6) == 0 || os.Getenv("VERIF_DF_CLUSTER") != "" {
+		// cluster mode: two job managers (`local` calls and, unless told otherwise,
+		// preflight stay with the local one), submission slots, a queue poll; the
+		// dataflow semantics do not depend on where a job runs
+		cfg.JobMode = "sge"
+		if c.Plan.Draw(2) == 0 {
+			cfg.Flags = append(cfg.Flags, fmt.Sprintf("--maxjobs=%d", 1+c.Plan.Draw(4)))
+		}
+		if c.Plan.Draw(2) == 0 {
+			cfg.Flags = append(cfg.Flags, fmt.Sprintf("--jobinterval=%d", []int{0, 100, 2000}[c.Plan.Draw(3)]))
+		}
+		c.Res.Probes["cluster-mode-cases"]++
+	}
 	swarmSched(c.Plan, cfg)
 	r := c.RunOnce(cfg, nil)
 	c.Res.Shape = progShape(prog)
 	c.Res.Class = r.Class()
+	if cfg.JobMode != "" {
+		for _, j := range r.Jobs {
+			if j.JobType == "local" {
+				c.Res.Probes["jobs-kept-local-in-cluster-mode"]++
+			} else if j.JobType != "" {
+				c.Res.Probes["jobs-submitted-to-the-cluster"]++
+			}
+		}
+	}
 	for _, p := range r.Panics {
 		// a crash of mrp itself is recorded; whether it violates the property under
 		// test is decided by that property's oracle
